@@ -1,4 +1,206 @@
+//! Usage-tracker lab: replay XUsageGen behaviours on a real `UsageTracker` with real snapshot files
+//! under --dir (persist_snapshot / restore_snapshot_if_exists / damage done to the files by the lab).
+//! One output record per behaviour (see spec/XUsageTrace.tla).
+
 use crate::util::*;
-pub fn main(_args: &[String]) -> Res<()> {
-    Err("not built yet".into())
+use kyrodb_engine::usage_tracker::{TenantUsage, UsageSnapshot, UsageTracker};
+use serde_json::{json, Value};
+use std::path::{Path, PathBuf};
+use std::sync::Arc;
+
+fn tname(t: usize) -> String {
+    format!("tenant_{t}")
+}
+
+fn cell(s: &UsageSnapshot, scale: u64) -> Value {
+    let b: i64 = if s.storage_bytes % scale == 0 { (s.storage_bytes / scale) as i64 } else { -1 };
+    json!([s.query_count, s.insert_count, s.delete_count, s.vector_count, b])
+}
+
+fn parse_csv(path: &Path, nt: usize, scale: u64) -> Vec<Value> {
+    let mut rows: Vec<Value> = (0..nt).map(|_| json!([])).collect();
+    let Ok(text) = std::fs::read_to_string(path) else {
+        return vec![json!([-2]); nt];
+    };
+    for (li, line) in text.lines().enumerate() {
+        let f: Vec<&str> = line.split(',').collect();
+        if li == 0 {
+            if f.len() != 9 || f[0] != "tenant_id" || f[7] != "billable_events" {
+                return vec![json!([-3]); nt];
+            }
+            continue;
+        }
+        let n = |i: usize| f.get(i).and_then(|s| s.parse::<u64>().ok());
+        for t in 1..=nt {
+            if f[0] == tname(t) {
+                let b = n(5).map(|b| if b % scale == 0 { (b / scale) as i64 } else { -1 }).unwrap_or(-4);
+                let row = json!([n(1), n(2), n(3), n(4), b, n(7)]);
+                // a tenant listed twice is reported as such
+                rows[t - 1] = if rows[t - 1] == json!([]) { row } else { json!([-5]) };
+            }
+        }
+    }
+    rows
+}
+
+struct Lab {
+    tracker: UsageTracker,
+    held: Vec<Option<Arc<TenantUsage>>>,
+    nt: usize,
+    scale: u64,
+    dir: PathBuf,
+}
+
+impl Lab {
+    fn obs(&self) -> Value {
+        let all = self.tracker.get_all_snapshots();
+        let mut snap = Vec::new();
+        let mut allv = Vec::new();
+        let mut bill = Vec::new();
+        let mut held = Vec::new();
+        for t in 1..=self.nt {
+            let name = tname(t);
+            match self.tracker.get_snapshot(&name) {
+                Some(s) => {
+                    bill.push(json!(s.billable_events()));
+                    snap.push(cell(&s, self.scale));
+                }
+                None => {
+                    bill.push(json!(0));
+                    snap.push(json!([]));
+                }
+            }
+            allv.push(all.get(&name).map(|s| cell(s, self.scale)).unwrap_or(json!([])));
+            held.push(self.held[t - 1].as_ref().map(|h| cell(&h.snapshot(), self.scale)).unwrap_or(json!([])));
+        }
+        // tenants outside the universe would show up in the counts
+        let count = self.tracker.tenant_count().max(all.len());
+        let csvp = self.dir.join("export.csv");
+        let _ = std::fs::remove_file(&csvp);
+        let csv = match self.tracker.export_csv(&csvp) {
+            Ok(()) => parse_csv(&csvp, self.nt, self.scale),
+            Err(_) => vec![json!([-6]); self.nt],
+        };
+        json!({"snap": snap, "all": allv, "count": count, "bill": bill, "held": held, "csv": csv})
+    }
+
+    fn rec(&self, h: &TenantUsage, s: &Value) {
+        let n = s["n"].as_u64().unwrap_or(0);
+        let sz = s["sz"].as_u64().unwrap_or(0) * self.scale;
+        match s["t"].as_str().unwrap() {
+            "query" => h.record_query(),
+            "queryb" => h.record_query_batch(n),
+            "insert" => h.record_insert(sz),
+            "insertb" => h.record_insert_batch(n, sz),
+            "delete" => h.record_delete(sz),
+            "deleteb" => h.record_delete_batch(n, sz),
+            _ => {}
+        }
+    }
+}
+
+fn run_one(bi: usize, b: &Value, root: &Path) -> Value {
+    let nt = b["nt"].as_u64().unwrap() as usize;
+    let np = b["np"].as_u64().unwrap() as usize;
+    let big = b["big"].as_bool().unwrap_or(false);
+    let dir = root.join(format!("u{bi}"));
+    let _ = std::fs::remove_dir_all(&dir);
+    std::fs::create_dir_all(&dir).unwrap();
+    let mut lab = Lab {
+        tracker: UsageTracker::new(),
+        held: vec![None; nt],
+        nt,
+        scale: if big { 1u64 << 40 } else { 1 },
+        dir: dir.clone(),
+    };
+    // path 1 directly in the directory, path 2 in a sub-directory persist has to create
+    let path = |p: u64| if p == 1 { dir.join("usage.snap") } else { dir.join(format!("sub{p}")).join("usage.snap") };
+    let _ = np;
+    let obs0 = lab.obs();
+    let mut steps = Vec::new();
+    for s in b["steps"].as_array().unwrap() {
+        let t = s["t"].as_str().unwrap();
+        let tn = s["tn"].as_u64().unwrap_or(0) as usize;
+        let p = s["p"].as_u64().unwrap_or(0);
+        let how = s["how"].as_str().unwrap_or("-");
+        let ret: Vec<u64> = match t {
+            "goc" => {
+                lab.held[tn - 1] = Some(lab.tracker.get_or_create(&tname(tn)));
+                vec![]
+            }
+            "query" | "queryb" | "insert" | "insertb" | "delete" | "deleteb" => {
+                if how == "fresh" {
+                    let h = lab.tracker.get_or_create(&tname(tn));
+                    lab.rec(&h, s);
+                } else if let Some(h) = lab.held[tn - 1].clone() {
+                    lab.rec(&h, s);
+                }
+                vec![]
+            }
+            "persist" => match lab.tracker.persist_snapshot(&path(p)) {
+                Ok(()) => vec![1],
+                Err(_) => vec![0],
+            },
+            "restore" => match lab.tracker.restore_snapshot_if_exists(&path(p)) {
+                Ok(n) => vec![1, n as u64],
+                Err(_) => vec![0],
+            },
+            "new" => {
+                lab.tracker = UsageTracker::new();
+                vec![]
+            }
+            "damage" => {
+                let f = path(p);
+                if let Ok(bytes) = std::fs::read(&f) {
+                    match how {
+                        "remove" => {
+                            let _ = std::fs::remove_file(&f);
+                        }
+                        "trunc" => {
+                            let _ = std::fs::write(&f, &bytes[..bytes.len() / 2]);
+                        }
+                        _ => {
+                            // the leading u32 is the format version
+                            let mut v = bytes.clone();
+                            v[0] = 2;
+                            let _ = std::fs::write(&f, &v);
+                        }
+                    }
+                }
+                vec![]
+            }
+            _ => vec![99],
+        };
+        let mut e = s.clone();
+        e["ret"] = json!(ret);
+        e["obs"] = lab.obs();
+        steps.push(e);
+    }
+    // no temp files may be left behind by persist
+    let mut litter = 0;
+    for d in [dir.clone(), dir.join("sub2")] {
+        if let Ok(rd) = std::fs::read_dir(&d) {
+            for f in rd.flatten() {
+                if f.file_name().to_string_lossy().contains(".tmp.") {
+                    litter += 1;
+                }
+            }
+        }
+    }
+    let _ = std::fs::remove_dir_all(&dir);
+    json!({"ev": "beh", "run": bi, "nt": nt, "np": np, "big": big, "litter": litter, "obs0": obs0, "steps": steps})
+}
+
+pub fn main(args: &[String]) -> Res<()> {
+    let beh = read_jsonl(&arg(args, "--behaviours").ok_or("--behaviours")?)?;
+    let out = arg(args, "--out").ok_or("--out")?;
+    let root = PathBuf::from(arg(args, "--dir").ok_or("--dir")?);
+    let threads: usize = arg(args, "--threads").map(|s| s.parse().unwrap()).unwrap_or(4);
+    std::fs::create_dir_all(&root)?;
+    let t = std::time::Instant::now();
+    let calls: usize = beh.iter().map(|b| b["steps"].as_array().map(|a| a.len()).unwrap_or(0)).sum();
+    let chunks = par_map(&beh, threads, |i, b| vec![run_one(i, b, &root).to_string()]);
+    let n = write_lines(&out, &chunks)?;
+    println!("{}", json!({"behaviours": n, "calls": calls, "wall_ms": t.elapsed().as_millis() as u64}));
+    Ok(())
 }
